@@ -14,6 +14,8 @@
 //   h_len    : L <= number of emitted units <= 6*L   (=> CAP = 6*L+1 never overflows behind a one-unit prefix)
 //   h_fix    : every t in the language of h_lang with |t| = L is a fixed point: escape(t) == t
 //              (with h_lang: escape(escape(s)) == escape(s) whenever escape(s) has at most L units)
+//   h_obs    : (no escaper) the LangStream observer agrees with the reference on EVERY word t of L units: it accepts t iff the
+//              ent()-based scan finds no special unit and no '&' that does not start an entity, and then decodes t like dec_in
 #include "fixed_stream.hpp"
 #include "StringUtils.hpp"
 #include "vf.h"
@@ -204,5 +206,32 @@ extern "C" void h_fix() {
     StringUtils::EscapeHTMLSpecialChars(out, t, SizeT(L));
     vf_assert(out.ok, 1);
     vf_assert(out.pos == L, 2);
+    vf_witness();
+}
+
+// the observer itself against the reference, on arbitrary words
+extern "C" void h_obs() {
+    const C *t = vf_buf<C>(L);
+    bool valid = true;                          // reference: no < > " ' and every & starts an entity
+    unsigned i = 0;
+    while (i < L) {
+        const C c = t[i];
+        if (c == C('&')) {
+            C d; const unsigned e = ent(t, L, i, &d);
+            if (e == 0) { valid = false; i += 1; } else i += e;
+        } else {
+            if (c == C('<')) valid = false;
+            if (c == C('>')) valid = false;
+            if (c == C('"')) valid = false;
+            if (c == C('\'')) valid = false;
+            i += 1;
+        }
+    }
+    C a[L + 1];
+    const unsigned na = dec_in(t, L, a);
+    LangStream v; v.expect = a; v.n = na;
+    v.Write(t, SizeT(L));
+    vf_assert((v.st == 0) == valid, 1);
+    if (valid) { vf_assert(v.same, 2); vf_assert(v.k == na, 3); }
     vf_witness();
 }
